@@ -97,10 +97,10 @@ def gen_history(rng, nops, acct):
             op = "r"
         elif k < 0.55:
             op = "ru"
-        elif k < 0.985 or acct:
+        elif k < 0.985:
             op = "w"
         else:
-            op = "reset"
+            op = "reset"  # also in accounting histories: after reset() the sets must behave like fresh ones
         spell = rng.random()
         if spell < 0.05:
             a -= 1 << 32
@@ -203,6 +203,13 @@ class HistMonitor:
             self.ref.hits, self.ref.accesses, self.ref.last_hit = int(st["hits"]), int(st["accesses"]), st["last_hit"]
             self.cyc = self.pm.cycles
             res.count("resets")
+            self.last_counted = None
+            if self.acct:
+                # counters after reset() are not claimed either way (re-synchronised above); resident tags are:
+                tags, _, _ = resident_view(self.m)
+                if any(t is not None for row in tags for t in row):
+                    self.fail("C03", "reset-keeps-blocks", "%s: a block is still valid after reset()" % where)
+                return
             self.readback(where)
             return
         try:
